@@ -333,7 +333,15 @@ func (c *ckStoreRun) attempt() error {
 		c.st.Rebuilds++
 	}
 	c.w.Write(line)
+	ckFlush(c.w) // the store may log.Fatal on a later step: what was observed so far must survive
 	return nil
+}
+
+// ckFlush pushes the buffered trace lines to the file.
+func ckFlush(n *ndWriter) {
+	n.mu.Lock()
+	n.w.Flush()
+	n.mu.Unlock()
 }
 
 func ckStoreRunOne(w *ndWriter, st *ckStats, s ckSched, np int) (err error) {
